@@ -10,7 +10,7 @@ from harness import core
 from harness.checks import lifelib as L
 
 C09_KINDS = ['plain', 'body', 'form', 'raise', 'nf', 'm405', 'crash', 'json404', 'hdrs', 'badpath', 'badchunk', 'oversize',
-             'badchunk_json', 'oversize_json', 'mutq', 'latin', 'badmp_json', 'signed', 'forged', 'stat_s', 'stat_n', 'bigbody', 'rewrite']
+             'badchunk_json', 'oversize_json', 'mutq', 'latin', 'badmp_json', 'signed', 'forged', 'stat_s', 'stat_n', 'bigbody', 'rewrite', 'tenant', 'whoami']
 C09_CONFIG = {'max_body_size': 1000, 'max_memfile_size': 128}
 
 
@@ -217,7 +217,7 @@ def run_c08(chk):
             if n0 is None:
                 _, _, taken0 = L.run_threads([app, app], reqs, [0] * 5000, acc if acc.ok else None, lf)
                 n0 = sum(1 for t in taken0 if t == 0)
-            fine = k in ('rewrite',)       # short critical windows (listener dispatch): sweep every other line
+            fine = k in ('rewrite', 'tenant')       # short critical windows (listener dispatch, tenant lookup): sweep every other line
             for a in range(1, n0 + 1, (1 if fine else 3) if thorough else (2 if fine else max(1, n0 // 36))):
                 execute(reqs, [0] * a + [1] * 5000 + [0] * 5000, line_files=lf, tag='twin')
     judge(chk, 'C08', traces, closure_known=False)
@@ -528,6 +528,27 @@ def run_c10(chk):
             expect = [solo('listen', 'LS'), e_as, e_mq]
             reqs, apps = [seq], [a]
             flat = True
+        elif arr == 'shared_environ':
+            # a cascade: the SAME environ dict is offered to a, then to b, then to the default application
+            d = ombott.app
+            if not getattr(d, '_verif_routes', False):
+                L.make_app(app=d)
+                d._verif_routes = True
+            b.route('/only-here/b', callback=lambda: 'b')
+            env = L.environ_for('whoami', 'W')
+            env2 = L.environ_for('whoami', 'W')
+
+            def again(ap, e):
+                e['wsgi.input'] = io.BytesIO(b'')
+                return L.serve(ap, e)
+            e_plain = L.serve(L.make_app(), env2)
+            bref = L.make_app()
+            bref.route('/only-here/b', callback=lambda: 'b')
+            e_bref = L.serve(bref, L.environ_for('whoami', 'W'))
+            seq = [(lambda: again(a, env)), (lambda: again(b, env)), (lambda: again(d, env)), (lambda: again(b, dict(env)))]
+            expect = [e_plain, e_bref, e_plain, e_bref]
+            reqs, apps = [seq], [a]
+            flat = True
         elif arr == 'status_table':
             # a answers with its own reason phrase for a code without a registered one; b and the default application use the code
             d = ombott.app
@@ -577,7 +598,7 @@ def run_c10(chk):
             raise core.MachineryError(arr)
         res, tr, taken = L.run_threads(apps, reqs, sched, acc if acc.ok else None)
         ok = []
-        if arr in ('alternate', 'create_between', 'listener', 'status_table'):
+        if arr in ('alternate', 'create_between', 'listener', 'status_table', 'shared_environ'):
             ok = [res[0][i] == expect[i] for i in range(len(expect))]
         elif arr == 'lazy_drain':
             got_a, got_mid = res[0][0]
@@ -614,6 +635,7 @@ def run_c10(chk):
     # arrangements inside C10's quantifier that the code as it is supports
     run_arr('status_table', [])      # first: nothing has subscribed / set a custom status anywhere in this process yet
     run_arr('listener', [])
+    run_arr('shared_environ', [])
     for _ in range(40 if thorough else 8):
         run_arr('alternate', [])
         run_arr('create_between', [])
